@@ -54,7 +54,7 @@ SPEC = {
     "group": G,
     "level": "model_checking",
     "harnesses": [],
-    "caps": {"quick_harness_timeout": 300, "thorough_harness_timeout": 900, "jobs": 8, "mem_gb": 20},
+    "caps": {"quick_harness_timeout": 600, "thorough_harness_timeout": 900, "jobs": 8, "mem_gb": 20},
     "functions": ["tracing_subscriber::Registry::{new_span, clone_span, enter, exit, try_close, current_span, start_close, span_data}",
                   "CloseGuard::drop, <DataInner as Clear>::clear, Layered::{new_span, try_close, enter, exit, clone_span}", "SpanStack::{push, pop, current}",
                   "Context::span (inside on_close)"],
